@@ -14,7 +14,7 @@ def gen(ctx):
 
 def run(ctx, proofs):
     r = propeng.run(ctx, proofs, [("-", "-")], check_vals=True, check_degs=False,
-                    n_quick=1000, n_thorough=20000, props=("C06", "C20"))
+                    n_quick=1000, n_thorough=20000, props=("C06", "C20"), extra_progs=e2e_functions(ctx))
     # the hypotheses on the prime of every C06 theorem (prime p, 2 < p, Z.log2 p < 2^64), evaluated for the three primes
     import random as _random
     def _probably_prime(n, rounds=40):
@@ -59,6 +59,34 @@ def run(ctx, proofs):
                       % (e2e_cov["reports_compared"], e2e_cov["always_true"], e2e_cov["always_false"]), {"broken": "end-to-end curve stage of C06", "coverage": e2e_cov}, no_input=True)
 
 
+E2E_FUNS = {}
+
+
+def e2e_functions(ctx):
+    """Closed functions per curve for the end-to-end stage; they also join the main stage (validator, mirror, interpreter)."""
+    rng = ctx.rng
+    E2E_FUNS.clear()
+    for curve in propeng.CURVES:
+        p = proggen.PRIMES[curve]
+        nb = p.bit_length()
+        funs = ["function f() { var x = %d; if (x == 0) { return 1; } return 2; }" % p,
+                "function f() { var x = %d; var y = x + 1; if (y == 1) { return 1; } if (x != 0) { return 3; } return 2; }" % p,
+                "function f() { var x = %d; if (x == 0) { return 1; } return 2; }" % proggen.PRIMES["GOLDILOCKS" if curve != "GOLDILOCKS" else "BN254"],
+                # literals with as many bits as the prime (not reduced when read), parity and bit operators
+                "function f() { var x = %d; if ((x & 1) == 1) { return 1; } if ((x | 1) == 3) { return 4; } return 2; }" % (p + 1),
+                "function f() { var x = 0x%x; if ((x & 1) == 0) { return 1; } if (x >> 1) { return 3; } return 2; }" % ((1 << nb) - 1),
+                # field-valued conditions
+                "function f() { var x = %d; if (x - x) { return 1; } if (x) { return 3; } if (0) { return 5; } return 2; }" % (p - 1)]
+        tries = 0
+        while len(funs) < (18 if ctx.tier == "quick" else 60) and tries < 4000:
+            tries += 1
+            q = proggen.targeted(rng, curve)
+            if q.startswith("function f() {") and "\n" not in q:
+                funs.append(q)
+        E2E_FUNS[curve] = funs
+    return [(curve, q, "e2e-function") for curve, fs in E2E_FUNS.items() for q in fs]
+
+
 def e2e_curves(ctx):
     """End-to-end stage (third audit, B C06 (i)): the constant-condition reports of the real CLI, run with `--curve X` for
     each of the three curves, on files of closed functions (boundary constants of THAT curve, every operator), against the
@@ -74,15 +102,7 @@ def e2e_curves(ctx):
     d = e2e.scratch_dir("C06-curves") if hasattr(e2e, "scratch_dir") else "/tmp"
     for curve in propeng.CURVES:
         p = proggen.PRIMES[curve]
-        funs = ["function f() { var x = %d; if (x == 0) { return 1; } return 2; }" % p,
-                "function f() { var x = %d; var y = x + 1; if (y == 1) { return 1; } if (x != 0) { return 3; } return 2; }" % p,
-                "function f() { var x = %d; if (x == 0) { return 1; } return 2; }" % proggen.PRIMES["GOLDILOCKS" if curve != "GOLDILOCKS" else "BN254"]]
-        tries = 0
-        while len(funs) < (14 if ctx.tier == "quick" else 60) and tries < 2000:
-            tries += 1
-            q = proggen.targeted(rng, curve)
-            if q.startswith("function f() {") and "\n" not in q:
-                funs.append(q)
+        funs = E2E_FUNS.get(curve) or []
         lifted = propeng.lift_all(H, [(curve, q, "e2e") for q in funs], [("-", "-")])
         keep, want = [], {}
         for i, q in enumerate(funs):
@@ -92,7 +112,7 @@ def e2e_curves(ctx):
             x = sexp.parse(o)
             line = len(keep) + 2
             keep.append(q.replace("function f()", "function f%d()" % len(keep), 1))
-            want[line] = sorted(sexp.unhex(y[2]) for y in x[5][1:])
+            want[line] = sorted((re.findall(r"\b(true|false)\b", sexp.unhex(y[2]).lower()) or [sexp.unhex(y[2])])[-1] for y in x[5][1:])
         path = os.path.join(d, "curve_%s.circom" % curve.lower())
         with open(path, "w") as fh:
             fh.write("pragma circom 2.0.0;\n" + "\n".join(keep) + "\ntemplate T() { signal input a; signal output b; b <== a + %s; }\n"
@@ -101,9 +121,13 @@ def e2e_curves(ctx):
         got = {}
         for blk in so.split("warning: Constant branching statement condition found.")[1:]:
             m = re.search(r":(\d+):(\d+)\n", blk)
-            t = re.search(r"This condition is always (true|false)\.", blk)
+            # the label line (behind the carets); only the truth value it names is compared, not the wording
+            lm = re.search(r"\n[^\n\w]*?\s\^+ ([^\n]*)", blk)          # the line of carets under the source line, then the label
+            t = re.search(r"\b(true|false)\b", lm.group(1).lower()) if lm else None
+            if m and not t:
+                out["labels_not_understood"] = out.get("labels_not_understood", 0) + 1
             if m and t:
-                got.setdefault(int(m.group(1)), []).append(t.group(0))
+                got.setdefault(int(m.group(1)), []).append(t.group(1))
         out["functions"] += len(keep)
         out["curves"][curve] = {"functions": len(keep), "cli_exit": rc, "reports": sum(len(v) for v in got.values())}
         for line in sorted(set(want) | set(got)):
@@ -111,8 +135,8 @@ def e2e_curves(ctx):
             if line - 2 >= len(keep):
                 continue          # the template line
             out["reports_compared"] += len(w)
-            out["always_true"] += sum(1 for y in w if y.endswith("true."))
-            out["always_false"] += sum(1 for y in w if y.endswith("false."))
+            out["always_true"] += sum(1 for y in w if y == "true")
+            out["always_false"] += sum(1 for y in w if y == "false")
             if w != g:
                 failing.append({"input": "pragma circom 2.0.0;\n" + keep[line - 2] + "\ntemplate T() { signal input a; signal output b; b <== a + f%d(); }\n" % (line - 2),
                                 "curve": curve, "cli_args": ["--curve", curve.lower(), "--level", "info"], "kind": "finding", "classes": [],
